@@ -1,6 +1,6 @@
 # Human-written metadata per check for MANIFEST.json.
 ENGINES = [
-    {"name": "meshx", "path": "/verif/kit (world.go, node.go, conn.go)", "serves_properties": ["C01", "C06", "C07", "C08"],
+    {"name": "meshx", "path": "/verif/kit (world.go, node.go, conn.go)", "serves_properties": ["C01", "C06", "C07", "C08", "C09"],
      "kind_free_text": "event-level explorer over a world of real routers (real state/peering/switch/router modules per node) wired by virtual links or adversary-owned connections; one event = one synchronous call into the real handlers, virtual time via testing/synctest"},
     {"name": "seqx", "path": "/verif/kit (bfs.go) + /verif/checks/*", "serves_properties": ["C01", "C02", "C03", "C11", "C12", "C17", "C19"],
      "kind_free_text": "sequential bounded-exhaustive / explicit-state explorer over the real objects (fresh object + replay per path, canonical state hash)"},
@@ -65,6 +65,13 @@ META = {
         "design_ref": "DESIGN.md §2 C08",
         "text": "For chain lengths 0..3 (thorough 0..5) a fresh world of real routers (two origins O and O2, relays H1..Hk, receiver R with two more peers) lets announcements of O at two times and of O2 propagate through the real forwarding code up to R's inbound link. The first announcement is then delivered after: every bit flip of the frame (quick: all header bits, one bit per byte beyond, all bits of the signature head), strip-outermost-j, strip-innermost, swap, duplicate, inner chain / appendix / body substituted from the other time or the other origin, re-attribution of every record to three other identities, impersonation of a router R already knows with the attacker's key embedded, wrapping by a non-delivering router, delivery over a different link - each as-is and re-signed by the (malicious, key-owning) delivering peer - and two-step histories where the genuine announcement is accepted first and a tampered copy with the same origin timestamp follows. Rejection = R's table unchanged and no announcement emitted; every acceptance is validated: route hops = [R, signers in order with signed delay/labels, origin], next hop = delivering peer, every record byte-identical to one logged from its signer for this (origin, timestamp, signature).",
         "note": "A malicious delivering peer can always sign a record of its own that omits inner hops (shortcut lie) - the statement only forbids naming routers that did not sign; such cases are judged by the acceptance oracle, not expected to be rejected. Frames whose type byte is mutated into a unicast type are relayed as transit traffic (unauthenticated by design) and not counted as forwarded announcements.",
+    },
+    "C09": {
+        "engine": "meshx",
+        "technique": "explicit-state BFS over all delivery orders of in-flight frames in worlds of real routers (tiny meshes), deterministic-discipline enumeration for larger meshes",
+        "design_ref": "DESIGN.md §2 C09",
+        "text": "Exhaustive tier: for every connected labelled graph on 2 and 3 routers (x label-size assignments, router-info sizes 0/450/1300 B, clock tick) with every router announcing as announceRouter does - and for 4-router graphs for every single announcement (origin x Send call) - ALL delivery orders of in-flight frames are explored breadth-first, each state reached by replaying the delivery path on a fresh world of real routers, deduplicated on (all routing tables, canonical nonce-free in-flight multiset). Every emitted frame is checked against the flooding rules (each (announcement, path) at most once, never to the origin, never back over the receive link, never to a router in the hop list, no repeated router) and every quiescent state against reach: exact destination route at every router for every announcing router, and walking the route's forward labels through the real GetLinkByLabel maps arrives there; a frame dropped by the (mirrored) link writer is reported. Larger meshes (lines, rings, stars, trees, grids, pseudo-random graphs up to 8 quick / 16 thorough routers) run under four deterministic delivery disciplines; a byte-by-byte router-info size sweep across the pooled-buffer tiers runs on short lines.",
+        "note": "All-orders exploration is limited to n<=3 (all announcing; the triangle with all three announcing only in the thorough tier under a state cap) and single announcements for n=4; beyond that the delivery disciplines are fixed, enumerated and not exhaustive - stated in the evidence. Deliveries are atomic (sequential world).",
     },
     "C11": {
         "engine": "seqx",
